@@ -124,16 +124,8 @@ def check_kind_exhaustiveness(ctx):
 
 
 # ------------------------------------------------------------------------ C01.2
-def _chain(st):
-    arms = []
-    while True:
-        arms.append((st.test, st.body))
-        if len(st.orelse) == 1 and isinstance(st.orelse[0], ast.If):
-            st = st.orelse[0]
-        else:
-            arms.append((None, st.orelse))
-            break
-    return arms
+class _Crash(Exception):
+    pass
 
 
 def _is_reject(stmts) -> bool:
@@ -142,114 +134,195 @@ def _is_reject(stmts) -> bool:
 
 
 def check_axis_table(ctx):
+    """The per-axis decision procedure, walked on the CFG for every abstract class of
+    (dim kind, `#`, size 1, equal, bound, NameError): insensitive to if/elif vs guard clauses,
+    try/else vs code after the try, flipped tests."""
+    from ..absim import eval_bool, simulate
+
     m = ctx.model
     f = m.func("_array_types._check_dims")
-    loops = [x for x in f.body if isinstance(x, ast.For)]
-    need(len(loops) == 1 and isinstance(loops[0].target, ast.Tuple) and len(loops[0].target.elts) == 2, "_check_dims: per-axis loop not found")
-    lp = loops[0]
+    g = NoReturn(m).cfg(f)
+    hdrs = [n for n in g.live_nodes() if n.kind == "for" and isinstance(n.ast.iter, ast.Call) and norm(n.ast.iter.func) == "zip" and isinstance(n.ast.target, ast.Tuple) and len(n.ast.target.elts) == 2]
+    need(len(hdrs) == 1, "_check_dims: per-axis loop `for dim, size in zip(dims, shape)` not found")
+    hdr = hdrs[0]
+    lp = hdr.ast
     dvar, svar = lp.target.elts[0].id, lp.target.elts[1].id
-    if not (isinstance(lp.iter, ast.Call) and norm(lp.iter.func) == "zip" and [norm(a) for a in lp.iter.args] == [f.params[0], f.params[1]]):
+    if [norm(a) for a in lp.iter.args] != [f.params[0], f.params[1]]:
         ctx.bad("C01.2", f, lp, "the per-axis loop does not pair each dim with the axis size at the same position (zip(cls_dims, obj_shape))")
-    tops = [x for x in lp.body if isinstance(x, ast.If)]
-    need(len(tops) == 1 and len(lp.body) == 1, "_check_dims: loop body is not one if/elif chain")
-    arms = _chain(tops[0])
-    seen = []
-    for test, body in arms:
-        t = norm(test) if test is not None else "<else>"
-        kind = None
-        if test is not None and t == f"{dvar} is _anonymous_dim":
-            kind = "anonymous"
-            if _is_reject(body) or any(not isinstance(x, ast.Pass) for x in body):
-                ctx.bad("C01.2", f, test, "an anonymous axis (`_`) does not simply accept")
-            else:
-                ctx.ok("C01.2", f.qualname, "anonymous axis -> accept")
-        elif test is not None and "broadcastable" in t:
-            kind = "broadcast"
-            ok = isinstance(test, ast.BoolOp) and isinstance(test.op, ast.And) and {norm(v) for v in test.values} == {f"{dvar}.broadcastable", f"{svar} == 1"}
-            if not ok:
-                ctx.bad("C01.2", f, test, f"the broadcast arm is `{t}`; the statement demands: '#' additionally accepts size 1 (and only size 1)")
-            elif any(not isinstance(x, ast.Pass) for x in body):
-                ctx.bad("C01.2", f, test, "a `#` axis of size 1 does not simply accept")
-            else:
-                ctx.ok("C01.2", f.qualname, "`#` and size 1 -> accept")
-        elif test is not None and t in (f"type({dvar}) is _FixedDim", f"isinstance({dvar}, _FixedDim)"):
-            kind = "fixed"
-            inner = [x for x in body if isinstance(x, ast.If)]
-            ok = len(inner) == 1 and len(body) == 1 and {norm(inner[0].test)} <= {f"{dvar}.size != {svar}", f"{svar} != {dvar}.size"} and _is_reject(inner[0].body) and not inner[0].orelse
-            if not ok:
-                ctx.bad("C01.2", f, test, f"a fixed axis is not rejected exactly when its size differs (found `{norm(inner[0].test) if inner else short(body[0], 60)}`)")
-            else:
-                ctx.ok("C01.2", f.qualname, "fixed axis -> reject iff size differs")
-        elif test is not None and t in (f"type({dvar}) is _SymbolicDim", f"isinstance({dvar}, _SymbolicDim)"):
-            kind = "symbolic"
-            cmp = [x for x in body if isinstance(x, ast.If)]
-            ok = len(cmp) == 1 and isinstance(cmp[0].test, ast.Compare) and isinstance(cmp[0].test.ops[0], ast.NotEq) and svar in norm(cmp[0].test) and _is_reject(cmp[0].body) and not cmp[0].orelse
-            if not ok:
-                ctx.bad("C01.2", f, test, "a symbolic axis is not rejected exactly when the value of its expression differs from the axis size")
-            else:
-                lhs = [norm(cmp[0].test.left), norm(cmp[0].test.comparators[0])]
-                other = [x for x in lhs if x != svar][0]
-                # `other` must be the result of the (second) eval
-                defs = [a for a in ast.walk(ast.Module(body=body, type_ignores=[])) if isinstance(a, ast.Assign) and norm(a.targets[0]) == other]
-                if not (defs and isinstance(defs[-1].value, ast.Call) and norm(defs[-1].value.func) == "eval"):
-                    ctx.bad("C01.2", f, cmp[0].test, f"the value compared for a symbolic axis (`{other}`) is not the evaluated expression")
-                else:
-                    ctx.ok("C01.2", f.qualname, "symbolic axis -> reject iff eval(expression) differs")
-        elif test is None:
-            kind = "named"
-            asserts = [x for x in body if isinstance(x, ast.Assert)]
-            if not any("_NamedDim" in norm(a.test) for a in asserts):
-                ctx.note("named arm is not asserted to be a _NamedDim")
-            _check_named_arm(ctx, f, body, svar, "single_memo")
+    memo = next((p_ for p_ in f.params if memo_role(p_) == "single"), None)
+    need(memo, "_check_dims: the size memo parameter was not found")
+    # variables holding the evaluated symbolic size / the looked-up bound size
+    evalvars, lookvars = set(), set()
+    for a in ast.walk(lp):
+        if isinstance(a, ast.Assign) and len(a.targets) == 1 and isinstance(a.targets[0], ast.Name):
+            if isinstance(a.value, ast.Call) and norm(a.value.func) == "eval":
+                evalvars.add(a.targets[0].id)
+            if isinstance(a.value, ast.Subscript) and norm(a.value.value) == memo:
+                lookvars.add(a.targets[0].id)
+            if isinstance(a.value, ast.Call) and isinstance(a.value.func, ast.Attribute) and a.value.func.attr == "get" and norm(a.value.func.value) == memo:
+                lookvars.add("!get:" + a.targets[0].id)
+    if any(v.startswith("!get:") for v in lookvars):
+        bad_get = [x for x in ast.walk(lp) if isinstance(x, ast.Call) and isinstance(x.func, ast.Attribute) and x.func.attr == "get" and norm(x.func.value) == memo][0]
+        ctx.bad("C01.5", f, bad_get, "a named axis is looked up with `.get()` and the result tested for falsiness / None: a name bound to size 0 is treated as unbound "
+                "(absence must be tested as absence: KeyError / `not in`)", construct="named arm: absence not tested as absence")
+        return
+    start = [s_ for k, s_ in hdr.succ if k == "loop"][0]
+
+    def mk_oracles(cls):
+        kind, bc, size1, eq, bound, nameerr = cls
+
+        def atom(e):
+            t = norm(e)
+            if isinstance(e, ast.Compare) and len(e.ops) == 1:
+                l, r_, op = e.left, e.comparators[0], e.ops[0]
+                ln, rn = norm(l), norm(r_)
+                if isinstance(op, (ast.Is, ast.IsNot)) and ln == dvar and rn == "_anonymous_dim":
+                    v = kind == "anon"
+                    return v if isinstance(op, ast.Is) else not v
+                if isinstance(op, (ast.Is, ast.IsNot, ast.Eq, ast.NotEq)) and ln == f"type({dvar})" and rn in ("_FixedDim", "_SymbolicDim", "_NamedDim"):
+                    v = {"_FixedDim": "fixed", "_SymbolicDim": "symbolic", "_NamedDim": "named"}[rn] == kind
+                    return v if isinstance(op, (ast.Is, ast.Eq)) else not v
+                if isinstance(op, (ast.Eq, ast.NotEq)) and {ln, rn} == {svar, "1"}:
+                    return size1 if isinstance(op, ast.Eq) else not size1
+                if isinstance(op, (ast.Eq, ast.NotEq)) and svar in (ln, rn):
+                    other = rn if ln == svar else ln
+                    if other == f"{dvar}.size":
+                        if kind != "fixed":
+                            raise _Crash(f"`{t}` evaluated for a {kind} dim")
+                        return eq if isinstance(op, ast.Eq) else not eq
+                    if other in evalvars or other in lookvars:
+                        return eq if isinstance(op, ast.Eq) else not eq
+                    return "unknown-compare"
+                if isinstance(op, (ast.Lt, ast.Gt, ast.LtE, ast.GtE)) and svar in (ln, rn):
+                    other = rn if ln == svar else ln
+                    if other == f"{dvar}.size" or other in evalvars or other in lookvars:
+                        raise _Crash(f"the expected size is compared with the axis size by `{t}` (an ordering, not (in)equality)")
+                    return "unknown-compare"
+                if isinstance(op, (ast.In, ast.NotIn)) and rn == memo:
+                    return bound if isinstance(op, ast.In) else not bound
+            if isinstance(e, ast.Call) and norm(e.func) == "isinstance" and norm(e.args[0]) == dvar and norm(e.args[1]) in ("_FixedDim", "_SymbolicDim", "_NamedDim"):
+                return {"_FixedDim": "fixed", "_SymbolicDim": "symbolic", "_NamedDim": "named"}[norm(e.args[1])] == kind
+            if isinstance(e, ast.Attribute) and norm(e.value) == dvar:
+                if kind == "anon":
+                    raise _Crash(f"`{t}` read from the anonymous-axis sentinel (it has no attributes)")
+                if e.attr == "broadcastable":
+                    return bc
+                if e.attr == "treepath":
+                    return None
+            raise AnalysisError(f"C01.2: unrecognised condition `{t}` in the per-axis check")
+
+        def test_oracle(node):
+            v = eval_bool(node.ast, atom)
+            if v == "unknown-compare":
+                raise AnalysisError(f"C01.2: unrecognised comparison `{norm(node.ast)}` in the per-axis check")
+            return v
+
+        def raise_oracle(node):
+            if node.ast is None or node.kind not in ("stmt", "test", "return"):
+                return None
+            for x in ast.walk(node.ast):
+                if isinstance(x, ast.Subscript) and isinstance(x.ctx, ast.Load) and norm(x.value) == memo and not bound:
+                    return "KeyError"
+                if isinstance(x, ast.Call) and norm(x.func) == "eval" and nameerr:
+                    return "NameError"
+                if isinstance(x, ast.Attribute) and norm(x.value) == dvar and kind == "anon" and isinstance(x.ctx, ast.Load):
+                    raise _Crash(f"`{norm(x)}` read from the anonymous-axis sentinel")
+            return None
+
+        return test_oracle, raise_oracle
+
+    def event_of(node):
+        if node.kind == "stmt" and isinstance(node.ast, ast.Assign) and isinstance(node.ast.targets[0], ast.Subscript) and norm(node.ast.targets[0].value) == memo:
+            return "bind:" + norm(node.ast.targets[0].slice) + "=" + norm(node.ast.value)
+        return None
+
+    def stop(node):
+        return node is hdr or node.kind in ("return", "raise", "exit", "exit_e", "exit_b", "falloff", "assert") and (node.kind != "assert" or (isinstance(node.ast.test, ast.Constant) and not node.ast.test.value))
+
+    classes = [("anon", False, s1, True, False, False) for s1 in (False, True)]
+    for kind in ("fixed", "symbolic", "named"):
+        for bc in (False, True):
+            for s1 in (False, True):
+                for eq in (False, True):
+                    if kind == "named":
+                        for bound in (False, True):
+                            classes.append((kind, bc, s1, eq, bound, False))
+                    elif kind == "symbolic":
+                        classes.append((kind, bc, s1, eq, False, False))
+                        classes.append((kind, bc, s1, eq, False, True))
+                    else:
+                        classes.append((kind, bc, s1, eq, False, False))
+    n = 0
+    wrong = []
+    for cls in classes:
+        kind, bc, s1, eq, bound, nameerr = cls
+        n += 1
+        t_or, r_or = mk_oracles(cls)
+        try:
+            outs = simulate(g, start, stop, t_or, r_or, event_of)
+        except _Crash as e:
+            wrong.append((cls, f"crash: {e}"))
+            continue
+        if kind == "anon" or (bc and s1):
+            want = ("accept", False)
+        elif kind == "symbolic" and nameerr:
+            want = ("raise:AnnotationError", False)
+        elif kind == "named" and not bound:
+            want = ("accept", True)
         else:
-            ctx.bad("C01.2", f, test, f"the per-axis dispatch has an arm the statement does not know: `{t}`")
-        seen.append(kind)
-    want_order = ["anonymous", "broadcast"]
-    if seen[:2] != want_order:
-        ctx.bad("C01.2", f, tops[0], f"the anonymous test and the `#`/size-1 test must come first, in that order, before the kind-specific arms (found {seen}): "
-                "otherwise `#` does not apply to every kind of axis / the anonymous sentinel is asked for `.broadcastable`", construct=f"arm order {seen}")
-    for k in ("anonymous", "broadcast", "fixed", "symbolic", "named"):
-        if k not in seen:
-            ctx.bad("C01.2", f, tops[0], f"the per-axis dispatch has no `{k}` arm", construct=f"missing arm {k}")
-    ctx.counters["axis_arms"] = len(seen)
-    ctx.floor("C01.2", "axis_arms", 5)
-    # final accept
-    last = f.body[-1]
-    if not (isinstance(last, ast.Return) and isinstance(last.value, ast.Constant) and last.value.value == ""):
-        ctx.bad("C01.2", f, last, "after all axes matched, _check_dims does not return the empty (accepting) message")
-
-
-def _check_named_arm(ctx, f, body, svar, memo):
-    """try: v = memo[key] / except KeyError: memo[key] = size / else: if v != size: reject"""
-    tries = [x for x in body if isinstance(x, ast.Try)]
-    if len(tries) != 1:
-        # alternative spelling: `if key not in memo: bind else: compare`
-        ifs = [x for x in body if isinstance(x, ast.If) and isinstance(x.test, ast.Compare) and isinstance(x.test.ops[0], (ast.NotIn, ast.In)) and norm(x.test.comparators[0]) == memo]
-        if len(ifs) == 1:
-            ctx.ok("C01.5", f.qualname, "named axis: membership test for absence")
-            return
-        ctx.bad("C01.5", f, body[-1] if body else f.node, "a named axis is not bound by 'look up; bind only if the name is absent (KeyError / not in)': testing the looked-up "
-                "value for falsiness treats a name bound to size 0 as unbound", construct="named arm: absence not tested as absence")
-        return
-    tr = tries[0]
-    look = [a for a in tr.body if isinstance(a, ast.Assign) and isinstance(a.value, ast.Subscript) and norm(a.value.value) == memo]
-    hk = [h for h in tr.handlers if h.type is not None and "KeyError" in norm(h.type)]
-    if not (look and hk):
-        ctx.bad("C01.5", f, tr, "named axis: lookup / KeyError handler not found")
-        return
-    key = norm(look[0].value.slice)
-    val = norm(look[0].targets[0])
-    stores = [a for a in hk[0].body if isinstance(a, ast.Assign) and isinstance(a.targets[0], ast.Subscript) and norm(a.targets[0].value) == memo]
-    if not (len(stores) == 1 and norm(stores[0].targets[0].slice) == key and norm(stores[0].value) == svar):
-        ctx.bad("C01.5", f, hk[0], f"an absent name is not bound to the axis size under the same key (`{memo}[{key}] = {svar}`)")
+            want = ("accept" if eq else "reject", False)
+        for o in outs:
+            binds = [e for e in o.events if e.startswith("bind:")]
+            if o.end is hdr:
+                got = "accept"
+            elif o.end.kind == "return":
+                v = o.end.ast.value
+                if isinstance(v, ast.Constant) and v.value == "":
+                    got = "accept-all"
+                elif isinstance(v, ast.JoinedStr) or (isinstance(v, ast.Constant) and isinstance(v.value, str)):
+                    got = "reject"
+                else:
+                    got = f"return {norm(v)}"
+            elif o.end.kind == "raise":
+                got = "raise:" + ",".join(o.end.info.get("kinds", ["?"]))
+            elif o.end.kind == "assert":
+                got = "assert-false"
+            else:
+                got = o.end.kind
+            if (got, bool(binds)) != want:
+                wrong.append((cls, f"{got}{' +bind' if binds else ''} (expected {want[0]}{' +bind' if want[1] else ''})"))
+            elif binds and not all(b.endswith("=" + svar) for b in binds):
+                wrong.append((cls, f"binds {binds[0]} instead of the axis size"))
+    ctx.counters["axis_classes"] = n
+    if wrong:
+        seen = set()
+        for cls, what in wrong:
+            kind, bc, s1, eq, bound, nameerr = cls
+            desc = f"{kind} axis" + (" marked `#`" if bc else "") + (", size 1" if s1 else "") + ("" if kind == "anon" else (", sizes equal" if eq else ", sizes differ")) \
+                + (", name bound" if kind == "named" and bound else (", name not bound yet" if kind == "named" else "")) + (", expression mentions an unbound name" if nameerr else "")
+            key = (kind, what)
+            if key in seen:
+                continue
+            seen.add(key)
+            rule = "C01.5" if kind == "named" and ("bind" in what) else ("C01.3" if nameerr else "C01.2")
+            ctx.bad(rule, f, lp, f"per-axis decision for a {desc}: {what}", construct=f"axis table: {desc} -> {what}")
     else:
-        ctx.ok("C01.5", f.qualname, f"named axis: bind `{memo}[{key}] = {svar}` only in the KeyError handler of the lookup of the same key")
-    cmp = [x for x in tr.orelse if isinstance(x, ast.If)]
-    ok = len(cmp) == 1 and isinstance(cmp[0].test, ast.Compare) and isinstance(cmp[0].test.ops[0], ast.NotEq) and {norm(cmp[0].test.left), norm(cmp[0].test.comparators[0])} == {val, svar} and _is_reject(cmp[0].body)
-    if not ok:
-        ctx.bad("C01.2", f, tr, "a bound name is not rejected exactly when the axis size differs from the bound size")
-    else:
-        ctx.ok("C01.2", f.qualname, "named axis -> bind if absent else reject iff differs")
+        ctx.ok("C01.2", f.qualname, f"per-axis decision walked on the CFG for {n} abstract classes: anonymous -> accept; `#` & size 1 -> accept; fixed/symbolic -> reject iff differs; "
+               "named -> bind if absent else reject iff differs; unbound symbolic name -> AnnotationError")
+    # after the last axis: accept
+    after = [s_ for k, s_ in hdr.succ if k == "done"]
+    x = after[0] if after else None
+    hops = 0
+    ok_end = False
+    while x is not None and hops < 5:
+        hops += 1
+        if x.kind == "return":
+            ok_end = isinstance(x.ast.value, ast.Constant) and x.ast.value.value == ""
+            break
+        nx = [y for kk, y in x.succ if kk == "n"]
+        x = nx[0] if len(nx) == 1 else None
+    if not ok_end:
+        ctx.bad("C01.2", f, lp, "after all axes matched, _check_dims does not return the empty (accepting) message")
 
 
 # ------------------------------------------------------------------------ C01.3
@@ -326,29 +399,61 @@ def check_slice_agreement(ctx):
 
 # ------------------------------------------------------------------------ C01.5
 def check_bind_if_absent(ctx):
+    """'*name' entries: stores only (a) under the KeyError handler of the lookup of the same key
+    (bind if absent) or (b) on the previously-`#` side (broadcast refinement); decided by
+    dominance / reachability on the CFG, not by the nesting of the source."""
     m = ctx.model
     f = m.func("_array_types._MetaAbstractArray._check_shape")
     g = NoReturn(m).cfg(f)
-    memo = "variadic_memo"
+    memo = next((p_ for p_ in f.params if memo_role(p_) == "variadic"), None)
+    need(memo, "_check_shape: the '*name' memo parameter was not found")
     stores = [n for n in g.live_nodes() if n.kind == "stmt" and isinstance(n.ast, ast.Assign) and isinstance(n.ast.targets[0], ast.Subscript) and norm(n.ast.targets[0].value) == memo]
-    need(len(stores) >= 2, "C01.5: stores into the variadic memo not found")
+    looks = [n for n in g.live_nodes() if n.kind == "stmt" and isinstance(n.ast, ast.Assign) and isinstance(n.ast.value, ast.Subscript) and norm(n.ast.value.value) == memo]
+    need(len(looks) == 1, f"C01.5: expected one lookup of the '*name' memo, found {len(looks)}")
+    need(len(stores) >= 2, "C01.5: stores into the '*name' memo not found")
     ctx.counters["variadic_memo_stores"] = len(stores)
-    tries = [t for t in ast.walk(f.node) if isinstance(t, ast.Try) and any(isinstance(a, ast.Assign) and isinstance(a.value, ast.Subscript) and norm(a.value.value) == memo for a in t.body)]
-    need(len(tries) == 1, "C01.5: lookup of the variadic memo not found")
-    tr = tries[0]
-    look = [a for a in tr.body if isinstance(a, ast.Assign) and isinstance(a.value, ast.Subscript) and norm(a.value.value) == memo][0]
-    key = norm(look.value.slice)
-    hk = [h for h in tr.handlers if h.type is not None and "KeyError" in norm(h.type)]
-    need(hk, "C01.5: KeyError handler of the variadic lookup not found")
+    look = looks[0]
+    key = norm(look.ast.value.slice)
+    # the KeyError handler of the lookup
+    hnodes = [n for n in g.live_nodes() if n.kind == "handler" and n.ast.type is not None and "KeyError" in norm(n.ast.type)
+              and any(isinstance(t, ast.Try) and any(h is n.ast for h in t.handlers) and any(y is look.ast for b in t.body for y in ast.walk(b)) for t in ast.walk(f.node))]
+    if not hnodes:
+        ctx.bad("C01.5", f, look.ast, "the lookup of a '*name' binding has no KeyError handler: bind-if-absent is not decided by absence")
+        return
+    dom = g.dominators()
+    tests = [n for n in g.live_nodes() if n.kind == "test" and isinstance(n.ast, ast.Name) and n.ast.id.startswith("prev_")]
+    tests = [n for n in tests if any(isinstance(t, ast.Tuple) and any(isinstance(e, ast.Name) and e.id == n.ast.id for e in t.elts) for t in look.ast.targets) or
+             any(isinstance(t, ast.Name) and t.id == n.ast.id for t in look.ast.targets)]
+    # which unpacked element is the flag: the first of `prev_flag, prev_shape = memo[key]`
+    flagvar = None
+    t0 = look.ast.targets[0]
+    if isinstance(t0, ast.Tuple) and len(t0.elts) == 2 and isinstance(t0.elts[0], ast.Name):
+        flagvar = t0.elts[0].id
+    tnode = next((n for n in g.live_nodes() if n.kind == "test" and flagvar and norm(n.ast) in (flagvar, f"not {flagvar}")), None)
+    need(tnode is not None, "C01.5: test of the previous binding's `#` flag not found")
+    pos = not norm(tnode.ast).startswith("not ")
+    true_edge = "t" if pos else "f"
+    reach_wo = g.reach_from(g.entry, avoid=None)
+    # nodes reachable without taking the `previously #` edge
+    seen, stack = set(), [g.entry]
+    while stack:
+        n = stack.pop()
+        if n.id in seen:
+            continue
+        seen.add(n.id)
+        for k, s_ in n.succ:
+            if n is tnode and k == true_edge:
+                continue
+            stack.append(s_)
     for sn in stores:
         st = sn.ast
-        in_handler = any(y is st for y in ast.walk(hk[0]))
-        in_else = any(y is st for b in tr.orelse for y in ast.walk(b))
         if norm(st.targets[0].slice) != key:
             ctx.bad("C01.5", f, st, f"a '*name' binding is stored under `{norm(st.targets[0].slice)}`, not under the key that was looked up (`{key}`)")
             continue
         v = st.value
         flag = norm(v.elts[0]) if isinstance(v, ast.Tuple) and len(v.elts) == 2 else None
+        in_handler = any(h.id in dom[sn.id] for h in hnodes)
+        on_refine_side = sn.id not in seen
         if flag != "broadcastable":
             ctx.bad("C01.5", f, st, f"the stored '*name' entry records `{flag}` as its broadcastable flag instead of the current use's `#` flag: after a plain `*name` "
                     "use the binding must be pinned (no longer broadcast against)")
@@ -356,30 +461,27 @@ def check_bind_if_absent(ctx):
             if not (isinstance(v, ast.Tuple) and norm(v.elts[1]).startswith("obj.shape[")):
                 ctx.bad("C01.5", f, st, "a new '*name' binding does not store the matched segment of the shape")
             else:
-                ctx.ok("C01.5", f.qualname, f"new '*name' binding stored only in the KeyError handler: `{short(st, 70)}`")
-        elif in_else:
-            ctx.ok("C01.5", f.qualname, f"broadcast refinement of an existing '*name' entry: `{short(st, 70)}`")
+                ctx.ok("C01.5", f.qualname, f"new '*name' binding stored only under the KeyError handler of its lookup: `{short(st, 70)}`")
+        elif on_refine_side:
+            ctx.ok("C01.5", f.qualname, f"broadcast refinement of an existing (still `#`) '*name' entry: `{short(st, 70)}`")
         else:
-            ctx.bad("C01.5", f, st, "a '*name' binding is overwritten outside the bind-if-absent / broadcast-refinement sites")
+            ctx.bad("C01.5", f, st, "a '*name' binding is overwritten on a path that is neither 'name absent' nor 'existing entry still broadcastable'")
     # the refinement must be executed on every accepting path of the refinable (previously-#) branch
-    tests = [n for n in g.live_nodes() if n.kind == "test" and norm(n.ast) == "prev_broadcastable"]
-    need(len(tests) == 1, "C01.5: test of the previous binding's `#` flag not found")
-    tnode = tests[0]
     store_ids = {n.id for n in stores}
-    start = [s for k, s in tnode.succ if k == "t"]
-    seen, stack, leak = set(), list(start), None
+    start = [s_ for k, s_ in tnode.succ if k == true_edge]
+    seen2, stack, leak = set(), list(start), None
     while stack:
         n = stack.pop()
-        if n.id in seen or n.id in store_ids:
+        if n.id in seen2 or n.id in store_ids:
             continue
-        seen.add(n.id)
+        seen2.add(n.id)
         if n.kind == "return" and isinstance(n.ast.value, ast.Constant) and n.ast.value.value == "":
             leak = n
             break
-        for k, s in n.succ:
+        for k, s_ in n.succ:
             if k in ("e", "b"):
                 continue
-            stack.append(s)
+            stack.append(s_)
     if leak is not None:
         ctx.bad("C01.5", f, tnode.ast, "when the existing '*name' binding is still broadcastable, an accepting path does not rewrite the entry: the current use's `#` flag (and the "
                 "broadcast shape) is lost, so a plain `*name` use does not pin the binding and a later, different shape is accepted",
@@ -392,30 +494,39 @@ def check_bind_if_absent(ctx):
 def check_rank_test(ctx):
     m = ctx.model
     f = m.func("_array_types._MetaAbstractArray._check_shape")
-    tops = [x for x in f.body if isinstance(x, ast.If)]
-    need(tops and "index_variadic is None" in norm(tops[0].test), "C01.6: dispatch on index_variadic not found")
-    st = tops[0]
-    pol = not norm(st.test).startswith("not ") and "is not None" not in norm(st.test)
-    none_side, var_side = (st.body, st.orelse) if pol else (st.orelse, st.body)
+    g = NoReturn(m).cfg(f)
+    sel = [n for n in g.live_nodes() if n.kind == "test" and "index_variadic is" in norm(n.ast) and "None" in norm(n.ast)]
+    need(len(sel) >= 1, "C01.6: dispatch on index_variadic not found")
+    tn = sel[0]
+    t = norm(tn.ast)
+    none_edge = "t" if ("is None" in t and not t.startswith("not ")) or (t.startswith("not ") and "is not None" in t) else "f"
+    other_edge = "f" if none_edge == "t" else "t"
 
-    def first_if(stmts):
-        for x in stmts:
-            if isinstance(x, ast.If):
-                return x
-        return None
+    def side(edge):
+        starts = [s_ for k, s_ in tn.succ if k == edge]
+        return g.reach_from(starts[0]) if starts else set()
 
-    a, b = first_if(none_side), first_if(var_side)
-    need(a is not None and b is not None, "C01.6: rank tests not found")
-    ta = norm(a.test)
-    ok_a = ta in ("len(obj.shape) != len(cls.dims)", "len(cls.dims) != len(obj.shape)") and _is_reject(a.body)
-    if not ok_a:
-        ctx.bad("C01.6", f, a.test, f"without a multi-axis specifier the rank test is `{ta}`; it must reject exactly when the ranks differ")
-    else:
+    none_side, var_side = side(none_edge), side(other_edge)
+    ranks = [n for n in g.live_nodes() if n.kind == "test" and "len(obj.shape)" in norm(n.ast) and "len(cls.dims)" in norm(n.ast)]
+    a = [n for n in ranks if n.id in none_side and n.id not in var_side]
+    b = [n for n in ranks if n.id in var_side and n.id not in none_side]
+    if not a or not b:
+        raise AnalysisError("C01.6: the rank tests (len(obj.shape) against len(cls.dims)) were not found on both sides of the multi-axis dispatch")
+
+    def rejects(n):
+        for k, s_ in n.succ:
+            if k == "t" and s_.kind == "return" and (isinstance(s_.ast.value, ast.JoinedStr) or (isinstance(s_.ast.value, ast.Constant) and s_.ast.value.value)):
+                return True
+        return False
+
+    ta = norm(a[0].ast)
+    if ta in ("len(obj.shape) != len(cls.dims)", "len(cls.dims) != len(obj.shape)") and rejects(a[0]):
         ctx.ok("C01.6", f.qualname, "no multi-axis specifier: reject iff len(shape) != len(dims)")
-    tb = norm(b.test)
-    ok_b = tb in ("len(obj.shape) < len(cls.dims) - 1", "len(cls.dims) - 1 > len(obj.shape)", "len(obj.shape) + 1 < len(cls.dims)", "len(obj.shape) <= len(cls.dims) - 2") and _is_reject(b.body)
-    if not ok_b:
-        ctx.bad("C01.6", f, b.test, f"with a multi-axis specifier the rank test is `{tb}`; '*name'/'...' stand for ZERO or more axes, so it must reject exactly when "
-                "len(shape) < len(dims) - 1")
     else:
+        ctx.bad("C01.6", f, a[0].ast, f"without a multi-axis specifier the rank test is `{ta}`; it must reject exactly when the ranks differ")
+    tb = norm(b[0].ast)
+    if tb in ("len(obj.shape) < len(cls.dims) - 1", "len(cls.dims) - 1 > len(obj.shape)", "len(obj.shape) + 1 < len(cls.dims)", "len(obj.shape) <= len(cls.dims) - 2") and rejects(b[0]):
         ctx.ok("C01.6", f.qualname, "multi-axis specifier: reject iff len(shape) < len(dims) - 1 (zero or more axes)")
+    else:
+        ctx.bad("C01.6", f, b[0].ast, f"with a multi-axis specifier the rank test is `{tb}`; '*name'/'...' stand for ZERO or more axes, so it must reject exactly when "
+                "len(shape) < len(dims) - 1")
